@@ -142,32 +142,55 @@ def replay(p):
                       np.max(np.abs(np.array([float(v) for v in g1]) - gnum)), np.max(np.abs(np.asarray(h1, dtype=float) - Hnum)) / 10)
             scale = 1 + abs(f(x0)) + np.max(np.abs(Hnum))
         elif kind == "bound":
-            from tf_pwa.variable import Bound
+            import re
+
+            import tensorflow as tf
+            from tf_pwa.variable import Bound, VarsManager
 
             bk = p["bound"]
-            th0 = {"a": 1.0, "b": float(m.get("xb", 1.0))}
-            pdf = TR.make_real_pdf(["a", "b"], {"a": 1.0, "b": 1.0}, F)
             b = {"two": lambda: Bound(-1.5, 2.0), "lower": lambda: Bound(0.5, None), "upper": lambda: Bound(None, 3.0), "custom": lambda: Bound(0.0, 1.0, func="a+(b-a)*x**2/(1+x**2)")}[bk]()
-            pdf.vm.bnd_dic["a"] = b
-            # the toy density is expanded around the y-point of the model
+            vm = VarsManager(dtype=tf.float64)
+            vm.add_real_var("a", value=1.0)
+            vm.add_real_var("b", value=1.0)
+            vm.bnd_dic["a"] = b
             xa = float(p.get("xa", 0.3))
-            ya = b.get_x2y(xa)
-            pdf = TR.make_real_pdf(["a", "b"], {"a": ya, "b": th0["b"]}, F)
-            pdf.vm.bnd_dic["a"] = b
-            data = TR.events([0, 1], g("w", 2))
-            mc = TR.events([200, 201], g("v", 2))
-            fcn = FCN(Model(pdf), data, mc, batch=3)
-            vm = pdf.vm
-            x0 = [xa, th0["b"]]
-            ft = vm.trans_fcn_grad(fcn.nll_grad)
+            xb = float(m.get("xb", 0.7))
+            y0 = np.array([b.get_x2y(xa), xb])
+            # an arbitrary smooth G realised as the quadratic with the model's Taylor coefficients at y0
+            G = {"v": 0.3, "g": np.array([0.7, -0.4]), "h": np.array([[0.9, 0.35], [0.35, -0.6]])}
+            for key, val in m.items():
+                mm = re.match(r"uf_G((?:_\d+)*)#\d+$", key)
+                if not mm:
+                    continue
+                ids = [int(t) for t in mm.group(1).split("_") if t != ""]
+                if len(ids) == 0:
+                    G["v"] = float(val)
+                elif len(ids) == 1:
+                    G["g"][ids[0]] = float(val)
+                elif len(ids) == 2:
+                    G["h"][ids[0], ids[1]] = G["h"][ids[1], ids[0]] = float(val)
+
+            def gval(y):
+                d = np.asarray(y, dtype=float) - y0
+                return G["v"] + G["g"] @ d + 0.5 * d @ G["h"] @ d
+
+            def ggrad(y):
+                d = np.asarray(y, dtype=float) - y0
+                return G["g"] + G["h"] @ d
+
+            f_grad = lambda y: (gval(y), ggrad(y))
+            f_hess = lambda y: (gval(y), ggrad(y), G["h"].copy())
+            f_hessp = lambda y, pv: (ggrad(y), G["h"] @ np.asarray(pv, dtype=float))
+            x0 = [xa, xb]
+            ft = vm.trans_fcn_grad(f_grad)
             f = lambda x: float(ft(list(x))[0])
             gnum, Hnum = _fd(f, x0), _fd2(f, x0)
             v0, g0 = ft(list(x0))
-            v1, g1, h1 = vm.trans_f_grad_hess(fcn.nll_grad_hessian)(list(x0))
-            pv = np.array([float(m.get("p_0", 1.0)), float(m.get("p_1", 1.0))])
-            g2, hp = vm.trans_grad_hessp(fcn.grad_hessp)(list(x0), pv)
-            err = max(np.max(np.abs(np.asarray(g0, dtype=float) - gnum)), np.max(np.abs(np.asarray(g1, dtype=float) - gnum)), np.max(np.abs(np.asarray(h1, dtype=float) - Hnum)) / 10,
-                      np.max(np.abs(np.asarray(hp, dtype=float).reshape(-1) - Hnum @ pv)) / 10, abs(float(v1) - float(v0)))
+            v1, g1, h1 = vm.trans_f_grad_hess(f_hess)(list(x0))
+            pv = np.array([float(m.get("p_0", 1.0)), float(m.get("p_1", 0.5))])
+            g2, hp = vm.trans_grad_hessp(f_hessp)(list(x0), pv)
+            err = max(np.max(np.abs(np.asarray(g0, dtype=float) - gnum)), np.max(np.abs(np.asarray(g1, dtype=float) - gnum)), np.max(np.abs(np.asarray(g2, dtype=float) - gnum)),
+                      np.max(np.abs(np.asarray(h1, dtype=float) - Hnum)) / 10, np.max(np.abs(np.asarray(hp, dtype=float).reshape(-1) - Hnum @ pv)) / 10, abs(float(v1) - float(v0)))
             scale = 1 + abs(f(x0)) + np.max(np.abs(Hnum))
         else:
             return {"reproduced": False, "error": "replay for kind %s not implemented" % kind}
